@@ -116,6 +116,7 @@ func runC18(c *Ctx, r *Rec) {
 			r.check(bad == "", "D3-operand-snapshot", construct, c.pos(fd.Pos()), "the operand is read only through GetSize/IsEmpty/AsArray/GetIterator (or handed to a method that does so)", bad)
 		}
 	}
+	checkCellsNotShared(c, r, "D2-cells-not-shared")
 	r.count("slice/map parameters", nD1)
 	r.count("container results", nD2)
 	r.count("bulk operands", nD3)
@@ -285,4 +286,283 @@ func mutationBeforeOperandRead(c *Ctx, info *types.Info, fd *ast.FuncDecl, sigPa
 		}
 	}
 	return ""
+}
+
+// ---------------------------------------------------------------- mutable cells
+
+// isCellType: an interface whose values are mutable (key, value) cells: GetKey, GetValue, SetValue.
+func isCellType(t types.Type) bool {
+	if t == nil {
+		return false
+	}
+	ms := ifaceMethodNames(t)
+	return ms["GetKey"] && ms["GetValue"] && ms["SetValue"]
+}
+
+// holdsCells: a container type instantiated with a cell element type (ListLike[AssociationLike[K,V]], ...).
+func holdsCells(t types.Type) bool {
+	if p, ok := t.(*types.Pointer); ok {
+		t = p.Elem()
+	}
+	switch x := t.(type) {
+	case *types.Named:
+		if ta := x.TypeArgs(); ta != nil {
+			for i := 0; i < ta.Len(); i++ {
+				if isCellType(ta.At(i)) {
+					return true
+				}
+			}
+		}
+	case *types.Slice:
+		return isCellType(x.Elem())
+	case *types.Map:
+		return isCellType(x.Elem())
+	}
+	return false
+}
+
+// checkCellsNotShared: inside the methods of the catalog type and its class, an association
+// (a mutable cell: SetValue changes it in place) stored into an association container must
+// be created in that function; associations taken from an operand, and whole operand
+// sequences of associations, are never stored.  Otherwise two catalogs share cells and an
+// update through one shows in the other.
+func checkCellsNotShared(c *Ctx, r *Rec, rule string) {
+	cat, _ := c.impl("collection", "CatalogLike")
+	cls, _ := c.impl("collection", "CatalogClassLike")
+	info := c.info("collection")
+	n := 0
+	for _, tn := range []*types.Named{cat, cls} {
+		if tn == nil {
+			continue
+		}
+		ms := c.methodsOf(tn)
+		for _, name := range sortedKeys(ms) {
+			fd := ms[name]
+			params := paramObjs(info, fd)
+			fromOperand := func(e ast.Expr) string {
+				src := resolveInit(info, fd, e)
+				why := ""
+				ast.Inspect(src, func(x ast.Node) bool {
+					if id, ok := x.(*ast.Ident); ok {
+						for _, p := range params {
+							if info.Uses[id] == p && (isSequentialParam(p.Type()) || isGoContainer(p.Type()) || isCellType(p.Type())) {
+								why = "it comes from the operand " + p.Name()
+							}
+						}
+					}
+					// an element fetched from an iterator over an operand
+					if rx, mname, _, ok := methodCall(x); ok && mname == "GetNext" {
+						if it := identObj(info, rx); it != nil {
+							ast.Inspect(fd.Body, func(y ast.Node) bool {
+								var rhs ast.Expr
+								switch s := y.(type) {
+								case *ast.AssignStmt:
+									for i, l := range s.Lhs {
+										if identObj(info, l) == it && i < len(s.Rhs) {
+											rhs = s.Rhs[i]
+										}
+									}
+								case *ast.ValueSpec:
+									for i, nm := range s.Names {
+										if info.Defs[nm] == it && i < len(s.Values) {
+											rhs = s.Values[i]
+										}
+									}
+								}
+								if rhs != nil {
+									if irx, iname, _, ok := methodCall(ast.Unparen(rhs)); ok && iname == "GetIterator" {
+										for _, p := range params {
+											if isObj(info, irx, p) {
+												why = "it is fetched from an iterator over the operand " + p.Name()
+											}
+										}
+										if io := identObj(info, irx); io != nil {
+											if init := initOf(info, fd, ast.Unparen(irx).(*ast.Ident)); init != nil {
+												ast.Inspect(init, func(z ast.Node) bool {
+													if id, ok := z.(*ast.Ident); ok {
+														for _, p := range params {
+															if info.Uses[id] == p {
+																why = "it is fetched from a shallow copy of the operand " + p.Name()
+															}
+														}
+													}
+													return true
+												})
+											}
+										}
+									}
+								}
+								return true
+							})
+						}
+					}
+					return true
+				})
+				return why
+			}
+			var g *FG
+			isFreshAt := func(e ast.Expr, at ast.Node) bool {
+				src := resolveInit(info, fd, e)
+				if id, ok := src.(*ast.Ident); ok {
+					if g == nil {
+						g = newFG(info, fd.Body)
+					}
+					if d := reachingDef(g, info, fd, id, at); d != nil {
+						src = ast.Unparen(d)
+					}
+				}
+				_, mname, _, ok := methodCall(src)
+				return ok && mname == "Make"
+			}
+			// persistent: the container written is a field, or a local that ends up in a field or a composite literal
+			persistent := func(e ast.Expr) bool {
+				e = ast.Unparen(e)
+				if selectorField(info, e) != nil {
+					return true
+				}
+				o := identObj(info, e)
+				if o == nil {
+					return false
+				}
+				found := false
+				ast.Inspect(fd.Body, func(x ast.Node) bool {
+					switch s := x.(type) {
+					case *ast.CompositeLit:
+						for _, el := range s.Elts {
+							v := el
+							if kv, ok := el.(*ast.KeyValueExpr); ok {
+								v = kv.Value
+							}
+							if isObj(info, v, o) {
+								found = true
+							}
+						}
+					case *ast.AssignStmt:
+						for i, l := range s.Lhs {
+							if selectorField(info, l) != nil && i < len(s.Rhs) && isObj(info, s.Rhs[i], o) {
+								found = true
+							}
+						}
+					}
+					return true
+				})
+				return found
+			}
+			inspectNoLit(fd.Body, func(x ast.Node) bool {
+				var stored ast.Expr
+				bulk := false
+				var at ast.Node
+				switch s := x.(type) {
+				case *ast.AssignStmt:
+					if len(s.Lhs) == 1 && len(s.Rhs) == 1 {
+						if ix, ok := ast.Unparen(s.Lhs[0]).(*ast.IndexExpr); ok {
+							if t := info.TypeOf(ix.X); t != nil && holdsCells(t.Underlying()) || (t != nil && holdsCells(t)) {
+								stored, at = s.Rhs[0], s
+							}
+						}
+					}
+				case *ast.CallExpr:
+					rx, mname, call, ok := methodCall(s)
+					if !ok {
+						return true
+					}
+					rt := info.TypeOf(rx)
+					if rt == nil || !holdsCells(rt) {
+						return true
+					}
+					switch {
+					case (mname == "AppendValue" && len(call.Args) == 1) || ((mname == "InsertValue" || mname == "SetValue") && len(call.Args) == 2):
+						a := call.Args[len(call.Args)-1]
+						if isCellType(info.TypeOf(a)) {
+							stored, at = a, s
+						}
+					case (mname == "AppendValues" || mname == "InsertValues" || mname == "SetValues") && len(call.Args) >= 1:
+						if persistent(rx) {
+							stored, at, bulk = call.Args[len(call.Args)-1], s, true
+						}
+					case (mname == "MakeFromSequence" || mname == "MakeFromArray") && len(call.Args) == 1:
+						// the new container is persistent when the variable it is assigned to is
+						ast.Inspect(fd.Body, func(y ast.Node) bool {
+							if lhs, rhs, ok := multiDef(y); ok && len(lhs) == 1 && ast.Unparen(rhs) == ast.Expr(s) && persistent(lhs[0]) {
+								stored, at, bulk = call.Args[0], s, true
+							}
+							return true
+						})
+					}
+				}
+				if stored == nil {
+					return true
+				}
+				n++
+				construct := c.fdName(fd) + "/" + exprStr(stored)
+				why := fromOperand(stored)
+				switch {
+				case !bulk && isFreshAt(stored, at):
+					r.ok(rule, construct, c.pos(at.Pos()), "the association stored is created in this function")
+				case why != "":
+					r.fail(rule, construct, c.pos(at.Pos()), fmt.Sprintf("the association%s stored here is not created in this function (%s): the new container shares mutable cells with it, and SetValue on an existing key changes both", map[bool]string{true: "s", false: ""}[bulk], why))
+				default:
+					r.skip(rule, construct, c.pos(at.Pos()), "the origin of the stored association is not recognised")
+				}
+				return true
+			})
+		}
+	}
+	r.count("association stores", n)
+}
+
+// reachingDef: the value assigned to id's variable by the assignment that dominates `at`
+// and is closest to it, provided no other assignment to the variable lies between the two
+// in the source (otherwise nil: not decided).
+func reachingDef(g *FG, info *types.Info, fd *ast.FuncDecl, id *ast.Ident, at ast.Node) ast.Expr {
+	obj := info.Uses[id]
+	if obj == nil {
+		return nil
+	}
+	type def struct {
+		n   ast.Node
+		rhs ast.Expr
+	}
+	var defs []def
+	inspectNoLit(fd.Body, func(x ast.Node) bool {
+		switch s := x.(type) {
+		case *ast.AssignStmt:
+			for i, l := range s.Lhs {
+				if identObj(info, l) == obj {
+					var rhs ast.Expr
+					if len(s.Rhs) == len(s.Lhs) {
+						rhs = s.Rhs[i]
+					}
+					defs = append(defs, def{s, rhs})
+				}
+			}
+		case *ast.ValueSpec:
+			for i, nm := range s.Names {
+				if info.Defs[nm] == obj {
+					var rhs ast.Expr
+					if len(s.Values) == len(s.Names) {
+						rhs = s.Values[i]
+					}
+					defs = append(defs, def{s, rhs})
+				}
+			}
+		}
+		return true
+	})
+	var best *def
+	for i := range defs {
+		d := &defs[i]
+		if d.n.Pos() < at.Pos() && g.nodeDominates(d.n, at) && (best == nil || d.n.Pos() > best.n.Pos()) {
+			best = d
+		}
+	}
+	if best == nil {
+		return nil
+	}
+	for _, d := range defs {
+		if d.n.Pos() > best.n.Pos() && d.n.Pos() < at.Pos() {
+			return nil
+		}
+	}
+	return best.rhs
 }
